@@ -64,6 +64,19 @@ def run(chk, repo, tier):
                 and isinstance(n.body[0].value, ast.Constant):
             det[(n.body[0].targets[0].id, n.body[0].value.value)] = n.test.func.id
 
+    # table form: `absorption = next((name for name, has in (('ZO', has_zero_order_absorption), ..) if has(model)), None)`
+    for a_ in ast.walk(gmf.node):
+        if isinstance(a_, ast.Assign) and len(a_.targets) == 1 and isinstance(a_.targets[0], ast.Name):
+            for g_ in [x for x in ast.walk(a_.value) if isinstance(x, (ast.GeneratorExp, ast.ListComp))]:
+                tab = g_.generators[0].iter
+                if isinstance(tab, ast.Name):
+                    tab = pm.globals_.get(tab.id, tab)
+                if isinstance(tab, (ast.Tuple, ast.List)):
+                    for row in tab.elts:
+                        if isinstance(row, ast.Tuple) and len(row.elts) == 2 and isinstance(row.elts[0], ast.Constant) \
+                                and isinstance(row.elts[1], ast.Name) and row.elts[1].id.startswith('has_'):
+                            det.setdefault((a_.targets[0].id, row.elts[0].value), row.elts[1].id)
+
     def key(fn, cat):
         k = fn
         for pre in ('has_', 'set_'):
@@ -584,7 +597,13 @@ def run_t13_t14(chk, repo):
         if isinstance(a, ast.Assign) and isinstance(a.targets[0], ast.Name) and any(
                 isinstance(c, ast.Call) and dotted(c.func) == 'has_lag_time' for c in ast.walk(a.value)):
             n14 += 1
-            direct = isinstance(a.value, ast.Call) and dotted(a.value.func) == 'has_lag_time'
+            def is_det(e):
+                while isinstance(e, ast.UnaryOp) and isinstance(e.op, ast.Not):
+                    e = e.operand
+                return isinstance(e, ast.Call) and dotted(e.func) == 'has_lag_time'
+            # the detector decides alone: the value is its result, or a conditional expression whose TEST is its result
+            direct = is_det(a.value) or (isinstance(a.value, ast.IfExp) and is_det(a.value.test) and not any(
+                is_det(x) for x in [*ast.walk(a.value.body), *ast.walk(a.value.orelse)]))
             chk.instance(T14, f'get_model_features: `{unparse(a)[:60]}` takes the detector result as it is: {direct}')
             if not direct:
                 chk.violation(T14, pm.rel, g.name, unparse(a)[:90],
